@@ -23,7 +23,7 @@ import (
 )
 
 func TestMain(m *testing.M) {
-	vstat.Rule("Frozen clock; breaker with generated fallback/recovery/check durations (whole-ms grid) and an error-ratio condition; the protected handler is a gate so requests can be in flight across the trip. Steps: advance(d) (d = whole ms + 1us, sized relative to check period, fallback and recovery durations), start, finish(k,status) in any order, failing bursts. Oracle from observation only: a trip instant T is known when String() turns to tripped at a quiescent point; every request arriving at a with T <= a < T+fallback must be answered by the fallback and must not reach the handler, whatever is in flight and however it completes; while the state reads standby every arriving request reaches the handler; observed state changes follow standby->tripped->recovering->{standby,tripped}. Non-trivial: a trip with >= 1 request in flight across it and >= 1 arrival inside the fallback interval at an offset other than 0. Later additions: requests may carry Connection: Upgrade, an already cancelled or expired context; Wrap(same handler) is called at arbitrary points (state must not move); loggers that format their arguments; side effects that hang until the case ends; another fallback handler installed between requests through Fallback() (state must not move, refused requests are answered by the handler in force).")
+	vstat.Rule("Frozen clock; breaker with generated fallback/recovery/check durations (whole-ms grid) and an error-ratio condition; the protected handler is a gate so requests can be in flight across the trip. Steps: advance(d) (d = whole ms + 1us, sized relative to check period, fallback and recovery durations), start, finish(k,status) in any order, failing bursts. Oracle from observation only: a trip instant T is known when String() turns to tripped at a quiescent point; every request arriving at a with T <= a < T+fallback must be answered by the fallback and must not reach the handler, whatever is in flight and however it completes; while the state reads standby every arriving request reaches the handler; observed state changes follow standby->tripped->recovering->{standby,tripped}. Non-trivial: a trip with >= 1 request in flight across it and >= 1 arrival inside the fallback interval at an offset other than 0. Later additions: requests may carry Connection: Upgrade, an already cancelled or expired context; Wrap(same handler) is called at arbitrary points (state must not move); loggers that format their arguments; side effects that hang until the case ends; TestC05_Stress also checks that no trip deadline lies before (clock at the return of the last log call made under the breaker lock) + fallback; another fallback handler installed between requests through Fallback() (state must not move, refused requests are answered by the handler in force).")
 	vstat.Main(m.Run)
 }
 
@@ -277,6 +277,13 @@ type hookLogger struct {
 	trips  []tripRec
 	states []string // every state the breaker set, in the order it set them (logged inside its lock)
 	rnd    atomic.Uint64
+	// fallback is the configured fallback duration; lastLocked the clock reading at the return of the
+	// latest log call the breaker made while holding its lock ("is in error state", state changes);
+	// early describes a trip whose deadline lies before lastLocked+fallback: that trip was decided
+	// after the lock had changed hands (so not before lastLocked), yet its shield ends early
+	fallback   time.Duration
+	lastLocked time.Time
+	early      string
 }
 
 type tripRec struct {
@@ -301,7 +308,11 @@ func (l *hookLogger) Debug(format string, args ...interface{}) {
 			l.states = append(l.states, st.String())
 			if until, ok := args[2].(time.Time); ok && st.String() == "tripped" {
 				l.trips = append(l.trips, tripRec{l.seq.Add(1), until})
+				if l.fallback > 0 && !l.lastLocked.IsZero() && until.Before(l.lastLocked.Add(l.fallback)) && l.early == "" {
+					l.early = fmt.Sprintf("the breaker tripped no earlier than %v (its lock was held by another request until then) with a fallback duration of %v, but the tripped state ends at %v, %v early", l.lastLocked.UTC(), l.fallback, until.UTC(), l.lastLocked.Add(l.fallback).Sub(until))
+				}
 			}
+			l.lastLocked = clock.Now()
 			l.mu.Unlock()
 		}
 		return
@@ -309,7 +320,17 @@ func (l *hookLogger) Debug(format string, args ...interface{}) {
 	l.perturb()
 }
 func (l *hookLogger) Info(string, ...interface{})  { l.perturb() }
-func (l *hookLogger) Warn(string, ...interface{})  { l.perturb() }
+func (l *hookLogger) Warn(format string, _ ...interface{}) {
+	l.perturb()
+	if strings.Contains(format, "is in error state") { // logged by an arriving request while it holds the breaker's lock
+		if l.rnd.Load()>>58&3 == 0 {
+			time.Sleep(150 * time.Microsecond) // a slow log sink: the clock moves on while the lock is held
+		}
+		l.mu.Lock()
+		l.lastLocked = clock.Now()
+		l.mu.Unlock()
+	}
+}
 func (l *hookLogger) Error(string, ...interface{}) { l.perturb() }
 
 // TestC05_Stress: unserialised arrivals, completions and clock advances on real
@@ -331,7 +352,7 @@ func TestC05_Stress(t *testing.T) {
 		clock.Freeze(cbh.Epoch)
 		defer clock.Unfreeze()
 		var seq atomic.Int64
-		lg := &hookLogger{seq: &seq}
+		lg := &hookLogger{seq: &seq, fallback: F}
 		handler := http.HandlerFunc(func(w http.ResponseWriter, r *http.Request) {
 			w.Header().Set("X-Handler", "1")
 			st, _ := strconv.Atoi(r.Header.Get("X-Want"))
@@ -404,7 +425,11 @@ func TestC05_Stress(t *testing.T) {
 		lg.mu.Lock()
 		trips := append([]tripRec(nil), lg.trips...)
 		states := append([]string(nil), lg.states...)
+		early := lg.early
 		lg.mu.Unlock()
+		if early != "" {
+			t.Fatalf("%s (%d workers, clock step %d ms)", early, workers, stepMs)
+		}
 		prevState := "standby"
 		for i, st := range states {
 			if !map[string]bool{"standby>tripped": true, "tripped>recovering": true, "recovering>standby": true, "recovering>tripped": true}[prevState+">"+st] {
